@@ -45,9 +45,9 @@ struct CoutCapture {
 // ================================================================================================
 // C17: shot programs
 // ================================================================================================
-enum SegKind { S_LOCAL = 0, S_LOOP, S_HELPER, S_ARRAY, S_OBJ1, S_OBJ2, S_BLOCK, S_ECHO, S_UNTRACKED, S_CYCLE_OWNER, S_COND, S_MULTI, S_FACTORY, S_COUNT };
+enum SegKind { S_LOCAL = 0, S_LOOP, S_HELPER, S_ARRAY, S_OBJ1, S_OBJ2, S_BLOCK, S_ECHO, S_UNTRACKED, S_CYCLE_OWNER, S_COND, S_MULTI, S_FACTORY, S_RETURN_BLOCK, S_ECHO_MEAS, S_COUNT };
 const char* segName(int k) {
-    static const char* n[] = {"tracked_local", "tracked_in_loop", "tracked_in_helper", "tracked_array", "object_tracked_field", "object_tracked_array_field", "tracked_in_block", "echo", "untracked_qubit", "tracked_owner_held_by_garbage_cycle", "tracked_in_measurement_dependent_scope", "tracked_multi_declaration", "tracked_owner_returned_by_factory"};
+    static const char* n[] = {"tracked_local", "tracked_in_loop", "tracked_in_helper", "tracked_array", "object_tracked_field", "object_tracked_array_field", "tracked_in_block", "echo", "untracked_qubit", "tracked_owner_held_by_garbage_cycle", "tracked_in_measurement_dependent_scope", "tracked_multi_declaration", "tracked_owner_returned_by_factory", "tracked_in_block_left_by_return", "tracked_measured_inside_echo_argument"};
     return k >= 0 && k < S_COUNT ? n[k] : "?";
 }
 struct Seg {
@@ -158,6 +158,16 @@ std::string renderShot(const ShotPlan& p) {
                 }
                 break;
             case S_ECHO: body += "    echo(\"e" + id + "\");\n"; break;
+            case S_RETURN_BLOCK:
+                // the tracked declaration sits in an if-block (or a loop body) that is left through 'return'
+                if (g.viaDestroy) s += "function hr" + id + "(int c) -> int { for (int k = 0; k < 3; k = k + 1) { @tracked qubit rb" + id + "; " + localBody("rb" + id) + "if (k == c) { return k; } } return 9; }\n";
+                else s += "function hr" + id + "(int c) -> int { if (c > 0) { @tracked qubit rb" + id + "; " + localBody("rb" + id) + "return 1; } return 0; }\n";
+                for (int r = 0; r < g.reps; ++r) body += "    int zr" + id + "_" + std::to_string(r) + " = hr" + id + "(1);\n";
+                break;
+            case S_ECHO_MEAS:
+                // the measurement is a side effect of evaluating an echo argument: it happens whether or not echo output is shown
+                body += "    @tracked qubit em" + id + "; " + prepCode(g.prep, "em" + id) + "echo(measure em" + id + ");\n";
+                break;
             case S_FACTORY:
                 // an object with a tracked field is built by a function and returned; it ends when the variable is cleared
                 s += "function mkT" + id + "() -> T1 { T1 t = new T1(); " + prepCode(g.prep, "t.q") + (g.meas >= 1 ? "t.ms(); " : "") + "return t; }\n";
@@ -200,6 +210,7 @@ ShotPlan genShot(sim::Rng& g) {
         if (s.kind == S_ARRAY && g.chance(0.25)) s.meas = 4;
         if (s.kind == S_LOOP || s.kind == S_HELPER) s.reps = g.range(1, 3);
         if (s.kind == S_OBJ1 || s.kind == S_OBJ2) { s.reps = g.range(1, 3); s.viaDestroy = g.chance(0.4); if (s.meas > 2) s.meas = 1; }
+        if (s.kind == S_RETURN_BLOCK) { s.reps = g.range(1, 2); s.viaDestroy = g.chance(0.4); if (s.meas == 3 && s.viaDestroy) s.meas = 1; }
         if (s.kind == S_FACTORY) { s.reps = g.range(1, 2); if (s.meas > 1) s.meas = 1; if (s.meas == 0 && s.prep >= 2) s.prep -= 2; }
         if (s.kind == S_CYCLE_OWNER) {
             s.reps = g.range(1, 2);
@@ -212,7 +223,7 @@ ShotPlan genShot(sim::Rng& g) {
         }
         if (s.kind == S_ARRAY || s.kind == S_OBJ2) { if (g.chance(0.3)) s.prep = 4; }
         if (s.kind == S_OBJ2 && s.meas == 3) s.meas = 1;
-        int need = (s.kind == S_ARRAY || s.kind == S_MULTI || s.kind == S_FACTORY ? 2 : (s.kind == S_OBJ1 || s.kind == S_OBJ2) ? 2 : s.kind == S_CYCLE_OWNER ? 3 : s.kind == S_ECHO ? 0 : 1) * ((s.kind == S_LOOP || s.kind == S_HELPER) ? s.reps : 1);
+        int need = (s.kind == S_RETURN_BLOCK ? 2 * s.reps : s.kind == S_ARRAY || s.kind == S_MULTI || s.kind == S_FACTORY ? 2 : (s.kind == S_OBJ1 || s.kind == S_OBJ2) ? 2 : s.kind == S_CYCLE_OWNER ? 3 : s.kind == S_ECHO ? 0 : 1) * ((s.kind == S_LOOP || s.kind == S_HELPER) ? s.reps : 1);
         if (qubits + need > 9) continue;
         qubits += need;
         p.segs.push_back(s);
@@ -310,6 +321,18 @@ void modelShot(const ShotPlan& p, int shot, Table& tab, std::vector<std::string>
                 }
                 break;
             case S_ECHO: echoes.push_back("e" + id); break;
+            case S_RETURN_BLOCK:
+                for (int r = 0; r < g.reps; ++r) {
+                    if (g.viaDestroy) { tab["qubit rb" + id][local(g)]++; tab["qubit rb" + id][local(g)]++; }   // iterations k = 0 and k = 1 (returns in the second)
+                    else tab["qubit rb" + id][local(g)]++;
+                }
+                break;
+            case S_ECHO_MEAS: {
+                int b = measureOne(g.prep, -1);
+                tab["qubit em" + id][std::to_string(b)]++;
+                echoes.push_back(std::to_string(b));
+                break;
+            }
             case S_FACTORY:
                 for (int r = 0; r < g.reps; ++r) {
                     std::string out = "?";
@@ -377,6 +400,11 @@ void cliObserver(runtime::RuntimeEvaluator* ev, void* stmt, uint64_t, bool) {
         }
         for (int k = 0; k < n && g_cs.bi < g_cs.bits.size(); ++k) g_rng.stage64(g_cs.bits[g_cs.bi++] ? 0ull : ~0ull);
         ++g_cs.measureStmts;
+    } else if (auto* es = dynamic_cast<compiler::EchoStatement*>(st)) {
+        if (es->value && dynamic_cast<compiler::MeasureExpression*>(es->value.get()) && g_cs.bi < g_cs.bits.size()) {
+            g_rng.stage64(g_cs.bits[g_cs.bi++] ? 0ull : ~0ull);
+            ++g_cs.measureStmts;
+        }
     } else if (auto* vd = dynamic_cast<compiler::VariableDeclaration*>(st)) {
         if (vd->initializer && dynamic_cast<compiler::MeasureExpression*>(vd->initializer.get()) && g_cs.bi < g_cs.bits.size()) {
             g_rng.stage64(g_cs.bits[g_cs.bi++] ? 0ull : ~0ull);
@@ -566,11 +594,11 @@ Verdict cliCheck(const ShotPlan& p, const std::string& src, uint64_t run, CliRes
     int S = p.annShots > 0 ? p.annShots : (p.cliShots > 0 ? p.cliShots : 1);
     // model
     Table want;
-    std::vector<std::string> echoPerShot;
+    std::vector<std::vector<std::string>> echoOfShot;   // echoed measurement results differ from shot to shot
     for (int s = 0; s < S; ++s) {
         std::vector<std::string> e;
         modelShot(p, s, want, e);
-        if (s == 0) echoPerShot = e;
+        echoOfShot.push_back(e);
     }
     if (shotsProvided) {
         if (!P.hasHeader) return {"no_shot_summary", "a shot count was given but no 'Shots:' summary was printed"};
@@ -601,7 +629,7 @@ Verdict cliCheck(const ShotPlan& p, const std::string& src, uint64_t run, CliRes
     else if (p.echoMode == 3 && !single) expectCopies = 0;
     if (expectCopies >= 0) {
         std::vector<std::string> want2;
-        for (int c = 0; c < expectCopies; ++c) want2.insert(want2.end(), echoPerShot.begin(), echoPerShot.end());
+        for (int c = 0; c < expectCopies && c < (int)echoOfShot.size(); ++c) want2.insert(want2.end(), echoOfShot[(size_t)c].begin(), echoOfShot[(size_t)c].end());
         bool unorderedEcho = false;
         for (auto& sg : p.segs) unorderedEcho |= sg.echoDtor;
         if (unorderedEcho) { std::sort(P.echoLines.begin(), P.echoLines.end()); std::sort(want2.begin(), want2.end()); }
@@ -728,6 +756,10 @@ std::string isoProgram(int mask) {
     s += "class Label { public string what; public constructor(Shape s) -> Label { this.what = \"generic shape\"; return this; } public constructor(Circle c) -> Label { this.what = \"circle\"; return this; } }\n";
     s += "function mkLabel(Shape s) -> Label { return new Label(s); }\n";
     s += "function rec(int n) -> int { if (n == 0) { int[] xs = {1}; return xs[5]; } return rec(n - 1) + 1; }\n";
+    // a chain declared most-derived first (the class table must not depend on, or change, the order of declaration)
+    s += "class Z3 extends Z2 { public int c = 3; public constructor() -> Z3 { super(); return this; } public function all() -> int { return this.a + this.b + this.c; } }\n";
+    s += "class Z2 extends Z1 { public int b = 2; public constructor() -> Z2 { super(); return this; } }\n";
+    s += "class Z1 { public int a = 1; public constructor() -> Z1 { return this; } }\n";
     s += "function main() -> void {\n";
     s += "    Stats.runs = Stats.runs + 1;\n    echo(\"runs=\" + Stats.runs);\n";
     if (mask & 1) s += "    echo(0.25f);\n    echo(2.0f);\n    echo(\"ratio=\" + 0.75f);\n    Stats.acc = Stats.acc + 0.25f;\n    echo(Stats.acc);\n";
@@ -741,8 +773,13 @@ std::string isoProgram(int mask) {
     if (mask & 16) s += "    @tracked qubit t;\n    h(t);\n    measure t;\n    reset t;\n    x(t);\n    bit tb = measure t;\n    echo(tb);\n    @tracked qubit[2] tr;\n    h(tr[0]);\n    cx(tr[0], tr[1]);\n    measure tr;\n";
     if (mask & 64) s += "    echo(mkLabel(new Circle()).what);\n    echo(mkLabel(new Shape()).what);\n";
     if (mask & 128) s += "    echo(\"deep\");\n    echo(rec(" + std::to_string(300 + 50 * ((mask >> 8) & 3)) + "));\n";
+    if (mask & 1024) s += "    Probe sp = new Probe();\n    qubit keep = sp.q;\n    destroy sp;\n    x(keep);\n    Probe sp2 = new Probe();\n    bit sr = measure sp2.q;\n    echo(\"stale=\" + sr);\n    destroy sp2;\n";
+    if (mask & 4096) s += "    Z3 z = new Z3();\n    echo(\"z=\" + z.all());\n";
     if (mask & 32) s += "    Cnt c1 = new Cnt();\n    Cnt c2 = new Cnt();\n    echo(c2.id);\n    echo(Cnt.made);\n";
-    s += "    echo(\"made=\" + Cnt.made);\n    echo(\"rel3=\" + Stats.released);\n}\n";
+    s += "    echo(\"made=\" + Cnt.made);\n    echo(\"rel3=\" + Stats.released);\n";
+    // an int literal out of range on an executed path: every execution must end with the same located runtime error
+    if (mask & 2048) s += "    if (Stats.runs > 0) { int big = 4000000000; echo(big); }\n";
+    s += "}\n";
     return s;
 }
 
@@ -938,7 +975,7 @@ IsoPlan genIso(uint64_t seed, uint64_t run) {
         go.guardViolationProb = knob.chance(0.2) ? 0.1 : 0.0;
         p.qp = qh::generate(g, go);
     } else if (p.family == 3) { p.variantMask = (int)knob.below(3); p.K = 5; }
-    else p.variantMask = 1 + (int)knob.below(1023);
+    else p.variantMask = 1 + (int)knob.below(8191);
     return p;
 }
 
@@ -968,6 +1005,8 @@ void runOne(const sim::Options& opt, uint64_t run, sim::RunReport& rep) {
             if (s.kind == S_CYCLE_OWNER) rep.count("c17.owners_held_by_garbage_cycle");
             if (s.kind == S_CYCLE_OWNER && s.echoDtor) rep.count("c17.echo_from_destructor_run_by_collector");
             if (s.kind == S_FACTORY) rep.count("c17.tracked_owner_returned_by_function");
+            if (s.kind == S_RETURN_BLOCK) rep.count("c17.tracked_scope_left_by_return");
+            if (s.kind == S_ECHO_MEAS) rep.count("c17.measurement_inside_echo_argument");
         }
         static const char* em[] = {"echo.absent", "echo.auto", "echo.all", "echo.none"};
         rep.count(em[p.echoMode]);
@@ -1034,6 +1073,11 @@ void runOne(const sim::Options& opt, uint64_t run, sim::RunReport& rep) {
     if (p.reanalyse) rep.count("c18.reanalysed_between_executions");
     if (p.collectLogLastOnly) rep.count("c18.qasm_log_only_on_last_execution");
     if (p.asMultiShot) rep.count("c18.configured_like_the_cli_shot_loop");
+    if (p.family == 2 && !(p.variantMask & 128)) {
+        if (p.variantMask & 1024) rep.count("c18.gate_through_handle_of_destroyed_owner_then_reuse");
+        if (p.variantMask & 2048) rep.count("c18.out_of_range_literal_on_executed_path");
+        if (p.variantMask & 4096) rep.count("c18.class_chain_declared_most_derived_first");
+    }
     sim::Hash h;
     h.add(sim::fnv1a(isoSource(p)));
     h.add((uint64_t)p.K * 4 + (p.reanalyse ? 2 : 0) + (p.collectLogLastOnly ? 1 : 0));
@@ -1056,7 +1100,7 @@ void runOne(const sim::Options& opt, uint64_t run, sim::RunReport& rep) {
         std::function<bool(const std::vector<classprog::Stmt>&)> f = [&](const std::vector<classprog::Stmt>& m) { IsoPlan c = cur; c.cp.main = m; if (failsWith(c)) { cur = c; return true; } return false; };
         sim::ddmin<classprog::Stmt>(cur.cp.main, f, budget);
     } else if (cur.family == 2) {
-        for (int b = 0; b < 10; ++b) { IsoPlan c = cur; c.variantMask &= ~(1 << b); if (c.variantMask != cur.variantMask && failsWith(c)) cur = c; }
+        for (int b = 0; b < 13; ++b) { IsoPlan c = cur; c.variantMask &= ~(1 << b); if (c.variantMask != cur.variantMask && failsWith(c)) cur = c; }
     }
     while (cur.K > 2) { IsoPlan c = cur; c.K = cur.K - 1; if (failsWith(c)) cur = c; else break; }
     if (cur.reanalyse) { IsoPlan c = cur; c.reanalyse = false; if (failsWith(c)) cur = c; }
